@@ -107,7 +107,7 @@ def sample_word(rnd, t):
     return rnd.getrandbits(rnd.randint(1, bits)) & m
 
 
-def gen_env(rnd, nmsgs=None, big=False):
+def gen_env(rnd, nmsgs=None, big=False, oneof_defaults=False):
     nmsgs = nmsgs or rnd.randint(1, 4)
     msgs = []
     for idx in range(nmsgs):
@@ -125,8 +125,17 @@ def gen_env(rnd, nmsgs=None, big=False):
                 k = min(rnd.randint(2, 4), len(ids) - i)
                 for j in range(k):
                     t = rnd.choice(TYPES)
+                    odef = None
+                    if oneof_defaults and not proto3 and rnd.random() < 0.6:
+                        # proto2 allows [default=...] on oneof members (outside the domain of the C01 theorem: env_ok)
+                        if t in SCALARS:
+                            odef = ('W', sample_word(rnd, t))
+                        elif t == 'STRING':
+                            odef = ('S', [rnd.randint(1, 255) for _ in range(rnd.randint(0, 5))])
+                        elif t == 'BYTES':
+                            odef = ('B', [rnd.randint(0, 255) for _ in range(rnd.randint(0, 5))])
                     fields.append(Field(ids[i + j], 'NONE' if proto3 else 'OPT', t, 'C%d' % g, 0, 1,
-                                        rnd.randrange(nmsgs) if t == 'MESSAGE' else None))
+                                        rnd.randrange(nmsgs) if t == 'MESSAGE' else None, odef))
                 i += k
                 continue
             t = rnd.choice(TYPES)
@@ -163,6 +172,51 @@ def gen_env(rnd, nmsgs=None, big=False):
             if f.type == 'MESSAGE' and f.label == 'REQ' and f.sub <= m.idx:
                 f.label = 'OPT'
     return Env(msgs)
+
+
+def corner_envs():
+    """hand-made schemas that put rare shapes next to each other, so that every run exercises them:
+    defaults on oneof members and on optional/required fields of every kind, proto3 fields of every 64-bit type,
+    packed and unpacked repeated fields of every scalar type, nesting through every label."""
+    F = Field
+    e1 = Env([MsgDesc(0, [
+        F(1, 'OPT', 'STRING', 'C0', 0, 1, None, ('S', [117, 110, 110, 97, 109, 101, 100])),
+        F(2, 'OPT', 'BYTES', 'C0', 0, 1, None, ('B', [1, 0, 255])),
+        F(3, 'OPT', 'INT32', 'C0', 0, 1, None, ('W', 7)),
+        F(4, 'OPT', 'MESSAGE', 'C0', 0, 1, 1),
+        F(5, 'OPT', 'STRING', 'N', 0, 0, None, ('S', [100, 102, 108, 116])),
+        F(6, 'OPT', 'BYTES', 'H', 0, 0, None, ('B', [9, 8])),
+        F(7, 'REQ', 'SINT64', 'N', 0, 0, None, ('W', 5)),
+        F(8, 'OPT', 'DOUBLE', 'H', 0, 0, None, ('W', 0x8000000000000000)),
+        F(9, 'OPT', 'STRING', 'C1', 0, 1, None, ('S', [])),
+        F(10, 'OPT', 'BOOL', 'C1', 0, 1, None, ('W', 1)),
+    ], 2, 1), MsgDesc(1, [
+        F(1, 'OPT', 'MESSAGE', 'N', 0, 0, 0),
+        F(2, 'REP', 'MESSAGE', 'K', 0, 0, 0),
+        F(3, 'OPT', 'STRING', 'C0', 0, 1, None, ('S', [120])),
+        F(4, 'OPT', 'FIXED64', 'C0', 0, 1, None),
+    ], 1, 0)])
+    p3 = []
+    for i, t in enumerate(TYPES):
+        if t != 'MESSAGE':
+            p3.append(F(i + 1, 'NONE', t, 'N', 0, 0, None, ('S', []) if t == 'STRING' else None))
+    p3.append(F(40, 'NONE', 'MESSAGE', 'N', 0, 0, 0))
+    p3.append(F(41, 'NONE', 'INT64', 'C0', 0, 1, None))
+    p3.append(F(42, 'NONE', 'STRING', 'C0', 0, 1, None))
+    p3.append(F(43, 'NONE', 'BYTES', 'C0', 0, 1, None))
+    p3.append(F(44, 'NONE', 'MESSAGE', 'C0', 0, 1, 0))
+    e2 = Env([MsgDesc(0, p3, 1, 1)])
+    reps = []
+    n = 1
+    for t in TYPES:
+        if t in SCALARS:
+            reps.append(F(n, 'REP', t, 'K', 1, 0, None)); n += 1
+            reps.append(F(n, 'REP', t, 'K', 0, 0, None)); n += 1
+    reps.append(F(n, 'REP', 'STRING', 'K', 0, 0, None)); n += 1
+    reps.append(F(n, 'REP', 'BYTES', 'K', 0, 0, None)); n += 1
+    reps.append(F(n, 'REP', 'MESSAGE', 'K', 0, 0, 0)); n += 1
+    e3 = Env([MsgDesc(0, reps, 0, 0)])
+    return [e1, e2, e3]
 
 
 # ---------------------------------------------------------------- messages
@@ -225,8 +279,12 @@ def gen_cell(rnd, env, f, depth, in_array=False, canon=False):
     if t in SCALARS:
         return ('W', sample_word(rnd, t))
     if t == 'STRING':
+        if not canon and not in_array and f.default is not None and rnd.random() < 0.3:
+            return ('T', 'D')          # the pointer is the default object itself: treated as absent by the serialisers
         return ('T', ('H', gen_bytes(rnd, nul_ok=False)))
     if t == 'BYTES':
+        if not canon and not in_array and f.default is not None and rnd.random() < 0.2:
+            return ('B', len(f.default[1]), 'D')
         b = gen_bytes(rnd)
         if not b and not in_array and rnd.random() < 0.5:
             return ('B', 0, 'N')
